@@ -248,3 +248,139 @@ macro_rules! parse_connect {
 parse_connect!(c08_parse_connect_len11, 11);
 // obligation: C08.parse_connect_len12 | harness: c08_parse_connect_len12 | kind: bounded | bound: all byte strings of length 12 | tier: thorough
 parse_connect!(c08_parse_connect_len12, 12);
+
+// ---- byte level of the serializer primitives, one representative kind per primitive (serialize direction only: together
+// with a parse-back in the same harness CBMC gave no verdict; the parse direction has its own harnesses) ---------------
+use super::{
+    CallFunctionReply, CallFunctionResult, CloseChannelEndResult, Connect, CreateObject, ItemReceived,
+};
+use crate::{ChannelCookie, ObjectUuid, SerializedValue};
+use uuid::Uuid;
+
+fn value_of(bytes: &[u8]) -> SerializedValue {
+    // a SerializedValue is its 9 reserved header bytes followed by the value bytes
+    let mut raw = BytesMut::with_capacity(9 + bytes.len());
+    raw.extend_from_slice(&[0u8; 9]);
+    raw.extend_from_slice(bytes);
+    SerializedValue::from_bytes_mut(raw)
+}
+
+// obligation: C08.bytes_close_channel_end_reply | harness: c08_bytes_close_channel_end_reply | kind: bounded | bound: serial <= 251 (one-byte varint), all three results | tier: quick
+#[kani::proof]
+#[kani::unwind(12)]
+fn c08_bytes_close_channel_end_reply() {
+    let serial: u32 = kani::any();
+    kani::assume(serial <= 251);
+    let which: u8 = kani::any();
+    kani::assume(which < 3);
+    let result = match which {
+        0 => CloseChannelEndResult::Ok,
+        1 => CloseChannelEndResult::InvalidChannel,
+        _ => CloseChannelEndResult::ForeignChannel,
+    };
+    let buf = match (CloseChannelEndReply { serial, result }).serialize_message() {
+        Ok(b) => b,
+        Err(_) => {
+            assert!(false);
+            return;
+        }
+    };
+    assert!(buf.len() == 7);
+    check_header(&buf[..], MessageKind::CloseChannelEndReply);
+    assert!(buf[5] == serial as u8 && buf[6] == which);
+}
+
+// (ClaimChannelEndReply - three puts - and CreateService - four puts: no verdict, CBMC exceeds 20 GB after ~2 min)
+// obligation: C08.bytes_create_object | harness: c08_bytes_create_object | kind: bounded | bound: serial <= 251, all 128-bit uuids | tier: quick
+#[kani::proof]
+#[kani::unwind(20)]
+fn c08_bytes_create_object() {
+    let serial: u32 = kani::any();
+    kani::assume(serial <= 251);
+    let id: [u8; 16] = kani::any();
+    let buf = match (CreateObject { serial, uuid: ObjectUuid(Uuid::from_bytes(id)) }).serialize_message() {
+        Ok(b) => b,
+        Err(_) => {
+            assert!(false);
+            return;
+        }
+    };
+    assert!(buf.len() == 22);
+    check_header(&buf[..], MessageKind::CreateObject);
+    assert!(buf[5] == serial as u8);
+    let mut i = 0;
+    while i < 16 {
+        assert!(buf[6 + i] == id[i]);
+        i += 1;
+    }
+}
+
+// frames with a value: [len][kind][value length: u32 LE][value bytes][fields]; the payload is in the frame unchanged
+// obligation: C08.bytes_connect_value2 | harness: c08_bytes_connect_value2 | kind: bounded | bound: version <= 251, value of 2 bytes (symbolic content) | tier: quick
+#[kani::proof]
+#[kani::unwind(16)]
+fn c08_bytes_connect_value2() {
+    let version: u32 = kani::any();
+    kani::assume(version <= 251);
+    let v: [u8; 2] = kani::any();
+    let buf = match (Connect { version, value: value_of(&v) }).serialize_message() {
+        Ok(b) => b,
+        Err(_) => {
+            assert!(false);
+            return;
+        }
+    };
+    assert!(buf.len() == 12);
+    check_header(&buf[..], MessageKind::Connect);
+    assert!(buf[5] == 2 && buf[6] == 0 && buf[7] == 0 && buf[8] == 0);
+    assert!(buf[9] == v[0] && buf[10] == v[1]);
+    assert!(buf[11] == version as u8);
+}
+
+// obligation: C08.bytes_item_received_value3 | harness: c08_bytes_item_received_value3 | kind: bounded | bound: value of 3 bytes (symbolic content), all cookies | tier: quick
+#[kani::proof]
+#[kani::unwind(20)]
+fn c08_bytes_item_received_value3() {
+    let v: [u8; 3] = kani::any();
+    let c: [u8; 16] = kani::any();
+    let buf = match (ItemReceived { cookie: ChannelCookie(Uuid::from_bytes(c)), value: value_of(&v) }).serialize_message() {
+        Ok(b) => b,
+        Err(_) => {
+            assert!(false);
+            return;
+        }
+    };
+    assert!(buf.len() == 28);
+    check_header(&buf[..], MessageKind::ItemReceived);
+    assert!(buf[5] == 3 && buf[6] == 0 && buf[7] == 0 && buf[8] == 0);
+    assert!(buf[9] == v[0] && buf[10] == v[1] && buf[11] == v[2]);
+    let mut i = 0;
+    while i < 16 {
+        assert!(buf[12 + i] == c[i]);
+        i += 1;
+    }
+}
+
+// obligation: C08.bytes_call_function_reply_ok | harness: c08_bytes_call_function_reply_ok | kind: bounded | bound: serial <= 251, Ok/Err with a value of 2 bytes | tier: quick
+#[kani::proof]
+#[kani::unwind(16)]
+fn c08_bytes_call_function_reply_ok() {
+    let serial: u32 = kani::any();
+    kani::assume(serial <= 251);
+    let v: [u8; 2] = kani::any();
+    let is_ok: bool = kani::any();
+    let result = if is_ok { CallFunctionResult::Ok(value_of(&v)) } else { CallFunctionResult::Err(value_of(&v)) };
+    let buf = match (CallFunctionReply { serial, result }).serialize_message() {
+        Ok(b) => b,
+        Err(_) => {
+            assert!(false);
+            return;
+        }
+    };
+    assert!(buf.len() == 13);
+    check_header(&buf[..], MessageKind::CallFunctionReply);
+    assert!(buf[5] == 2 && buf[6] == 0 && buf[7] == 0 && buf[8] == 0);
+    assert!(buf[9] == v[0] && buf[10] == v[1]);
+    assert!(buf[11] == serial as u8);
+    assert!(buf[12] == if is_ok { 0 } else { 1 });
+}
